@@ -3,6 +3,7 @@ package storesim
 import (
 	"fmt"
 	"sort"
+	"strings"
 
 	"verifsim/model"
 )
@@ -10,7 +11,13 @@ import (
 // Mismatch describes an oracle mismatch.
 type Mismatch struct {
 	Class  string
+	Site   string
 	Detail string
+	// Key, Field, T locate the first differing cell for read mismatches.
+	Key   string
+	Field string
+	T     int64
+	HasT  bool
 }
 
 func (m *Mismatch) Error() string { return m.Class + ": " + m.Detail }
@@ -22,7 +29,7 @@ func inRange(t int64, ro ReadOpts) bool { return t >= ro.Min && t <= ro.Max }
 func checkOrder(key, field string, got []model.TV, asc bool, via string) *Mismatch {
 	for i := 1; i < len(got); i++ {
 		if asc && got[i].T <= got[i-1].T || !asc && got[i].T >= got[i-1].T {
-			return &Mismatch{"read-order-or-duplicate", fmt.Sprintf("%s: %s %s: t[%d]=%d after t[%d]=%d (ascending=%v)", via, key, field, i, got[i].T, i-1, got[i-1].T, asc)}
+			return &Mismatch{Class: "read-order-or-duplicate", Detail: fmt.Sprintf("%s: %s %s: t[%d]=%d after t[%d]=%d (ascending=%v)", via, key, field, i, got[i].T, i-1, got[i-1].T, asc)}
 		}
 	}
 	return nil
@@ -47,11 +54,15 @@ func CompareExact(m *model.Shard, obs Observed, ro ReadOpts, via string) *Mismat
 				return mm
 			}
 			if len(got) != len(want) {
-				return &Mismatch{"read-differs-from-model", fmt.Sprintf("%s: %s %s range[%d,%d] asc=%v: got %d points, model has %d; got=%s want=%s", via, key, f, ro.Min, ro.Max, ro.Ascending, len(got), len(want), brief(got), brief(want))}
+				mm := &Mismatch{Class: "read-differs-from-model", Key: key, Field: f, Detail: fmt.Sprintf("%s: %s %s range[%d,%d] asc=%v: got %d points, model has %d; got=%s want=%s", via, key, f, ro.Min, ro.Max, ro.Ascending, len(got), len(want), brief(got), brief(want))}
+				if t, ok := firstDiff(got, want); ok {
+					mm.T, mm.HasT = t, true
+				}
+				return mm
 			}
 			for i := range want {
 				if got[i].T != want[i].T || !got[i].V.Equal(want[i].V) {
-					return &Mismatch{"read-differs-from-model", fmt.Sprintf("%s: %s %s: point %d: got (%d,%s) model (%d,%s)", via, key, f, i, got[i].T, got[i].V, want[i].T, want[i].V)}
+					return &Mismatch{Class: "read-differs-from-model", Key: key, Field: f, T: got[i].T, HasT: true, Detail: fmt.Sprintf("%s: %s %s: point %d: got (%d,%s) model (%d,%s)", via, key, f, i, got[i].T, got[i].V, want[i].T, want[i].V)}
 				}
 			}
 		}
@@ -75,11 +86,32 @@ func CompareExact(m *model.Shard, obs Observed, ro ReadOpts, via string) *Mismat
 			}
 			s := m.Series[key]
 			if s == nil || len(s.Fields[f]) == 0 {
-				return &Mismatch{"unexpected-data", fmt.Sprintf("%s: %s %s: %d points returned, model has none: %s", via, key, f, len(got), brief(got))}
+				return &Mismatch{Class: "unexpected-data", Key: key, Field: f, T: got[0].T, HasT: true, Detail: fmt.Sprintf("%s: %s %s: %d points returned, model has none: %s", via, key, f, len(got), brief(got))}
 			}
 		}
 	}
 	return nil
+}
+
+// firstDiff returns the first timestamp present in exactly one of the lists.
+func firstDiff(got, want []model.TV) (int64, bool) {
+	w := map[int64]bool{}
+	for _, p := range want {
+		w[p.T] = true
+	}
+	g := map[int64]bool{}
+	for _, p := range got {
+		g[p.T] = true
+		if !w[p.T] {
+			return p.T, true
+		}
+	}
+	for _, p := range want {
+		if !g[p.T] {
+			return p.T, true
+		}
+	}
+	return 0, false
 }
 
 func brief(tv []model.TV) string {
@@ -169,7 +201,7 @@ func CompareCrash(acked *model.Shard, in *Inflight, obs Observed, via string) *M
 					}
 				}
 				if !okOld && !okNew {
-					return &Mismatch{"unexpected-data-after-crash", fmt.Sprintf("%s: %s %s t=%d value %s was never written there (acked=%s inflight=%s)", via, key, f, p.T, p.V, cell(acked, key, f, p.T), cell(after, key, f, p.T))}
+					return &Mismatch{Class: "unexpected-data-after-crash", Detail: fmt.Sprintf("%s: %s %s t=%d value %s was never written there (acked=%s inflight=%s)", via, key, f, p.T, p.V, cell(acked, key, f, p.T), cell(after, key, f, p.T))}
 				}
 			}
 		}
@@ -184,7 +216,7 @@ func CompareCrash(acked *model.Shard, in *Inflight, obs Observed, via string) *M
 				if deleting(key, t) {
 					continue
 				}
-				return &Mismatch{"acked-point-missing-after-crash", fmt.Sprintf("%s: %s %s t=%d acknowledged value %s is not returned after restart", via, key, f, t, pts[t])}
+				return &Mismatch{Class: "acked-point-missing-after-crash", Detail: fmt.Sprintf("%s: %s %s t=%d acknowledged value %s is not returned after restart", via, key, f, t, pts[t])}
 			}
 		}
 	}
@@ -241,12 +273,12 @@ func CompareListing(m *model.Shard, l *Listing) *Mismatch {
 	for _, k := range l.Series {
 		listed[k] = true
 		if !must[k] && !m.MaybeListed[k] {
-			return &Mismatch{"series-listed-without-data", fmt.Sprintf("series %s is listed but has no points (listed=%v)", k, l.Series)}
+			return &Mismatch{Class: "series-listed-without-data", Key: k, Detail: fmt.Sprintf("series %s is listed but has no points (listed=%v)", k, l.Series)}
 		}
 	}
 	for k := range must {
 		if !listed[k] {
-			return &Mismatch{"series-with-data-not-listed", fmt.Sprintf("series %s has points but is not listed (listed=%v)", k, l.Series)}
+			return &Mismatch{Class: "series-with-data-not-listed", Key: k, Detail: fmt.Sprintf("series %s has points but is not listed (listed=%v)", k, l.Series)}
 		}
 	}
 	// Expected measurement / tag listings: lower bound from must, upper bound
@@ -289,12 +321,12 @@ func CompareListing(m *model.Shard, l *Listing) *Mismatch {
 		for _, x := range got {
 			g[x] = true
 			if !s.hi[x] {
-				return &Mismatch{"listing-has-removed-item", fmt.Sprintf("%s lists %q which no remaining series has (got %v)", what, x, got)}
+				return &Mismatch{Class: "listing-has-removed-item", Site: strings.SplitN(what, "(", 2)[0], Detail: fmt.Sprintf("%s lists %q which no remaining series has (got %v)", what, x, got)}
 			}
 		}
 		for x := range s.lo {
 			if !g[x] {
-				return &Mismatch{"listing-misses-item", fmt.Sprintf("%s does not list %q although a series with points has it (got %v)", what, x, got)}
+				return &Mismatch{Class: "listing-misses-item", Site: strings.SplitN(what, "(", 2)[0], Detail: fmt.Sprintf("%s does not list %q although a series with points has it (got %v)", what, x, got)}
 			}
 		}
 		return nil
@@ -318,7 +350,7 @@ func CompareListing(m *model.Shard, l *Listing) *Mismatch {
 	}
 	for name := range l.TagKeys {
 		if !meas.hi[name] && len(l.TagKeys[name]) > 0 {
-			return &Mismatch{"listing-has-removed-item", fmt.Sprintf("TagKeys lists measurement %q which has no series", name)}
+			return &Mismatch{Class: "listing-has-removed-item", Detail: fmt.Sprintf("TagKeys lists measurement %q which has no series", name)}
 		}
 	}
 	lo, hi := int64(len(must)), int64(len(must))
@@ -328,7 +360,7 @@ func CompareListing(m *model.Shard, l *Listing) *Mismatch {
 		}
 	}
 	if l.Cardinality < lo || l.Cardinality > hi {
-		return &Mismatch{"series-cardinality-wrong", fmt.Sprintf("SeriesCardinality=%d, model has %d series with points (up to %d counting cumulatively emptied ones)", l.Cardinality, lo, hi)}
+		return &Mismatch{Class: "series-cardinality-wrong", Detail: fmt.Sprintf("SeriesCardinality=%d, model has %d series with points (up to %d counting cumulatively emptied ones)", l.Cardinality, lo, hi)}
 	}
 	return nil
 }
